@@ -561,6 +561,8 @@ class Gen:
                   'wrong_type_value', 'level_mismatch_replace', 'value_partial']
         if self.kind == 'msg':
             causes += ['msg_other_text', 'seg_cardinality', 'seg_level_mismatch', 'seg_wrong_name']
+        if self.twin:     # each twin has its own level: a level mismatch means nothing in lock-step
+            causes = [c for c in causes if 'level' not in c]
         cause = rng.choice(causes)
         other_level = 2 if self.level == 1 else 1
         other_version = rng.choice([v for v in T.VERSIONS if v != self.version])
